@@ -41,7 +41,7 @@ YOUR TASK: produce TWO different source changes (call them A and B) to the libra
   1. still compiles,
   2. keeps the library's existing test-suite green (`cd {wt} && CARGO_NET_OFFLINE=true cargo test --offline` must pass: 72 unit tests + doctests) - run it to be sure,
   3. breaks the property above in a way that needs something SPECIFIC to manifest - a particular input shape, parameter combination, multi-step sequence of operations, unusual-but-legal argument, a rarely taken branch, or two cooperating sites that each look fine alone - NOT something every ordinary use would expose at once, and not a change that merely makes everything wrong by a large factor. Prefer realistic slips a maintainer could make during a refactor (off-by-one in an index or bound, a comparison `<` vs `<=`, a wrong variable of the same type, a sign in a rarely used branch, a stale value reused, an early return in a corner case, a coefficient typo in one table row, clamping the wrong bound, ...). A and B should be in different functions / mechanisms if possible.
-For each change also write a DEMONSTRATION: a small Rust integration test file (put it at {wt}/tests/seed_demo_A.rs and .../seed_demo_B.rs, using only the public API of `bacon_sci`) that FAILS with the change applied and PASSES on the unchanged library. Verify both directions yourself (use `git stash` / `git diff > file` / `git checkout -- src` to switch; run `cargo test --offline --test seed_demo_A`).
+For each change also write a DEMONSTRATION: a small Rust integration test file (put it at {wt}/tests/seed_demo_A.rs and .../seed_demo_B.rs, using only the public API of `bacon_sci`) that FAILS with the change applied and PASSES on the unchanged library. Verify both directions yourself (use `git diff > file`, `git apply file` and `git checkout -- src` to switch - NEVER `git stash`: the stash is shared between worktrees and other agents are working in parallel; run `cargo test --offline --test seed_demo_A`).
 
 DELIVERABLES (write these files, then restore the worktree's src/ to the unchanged state with `git checkout -- src build.rs codata.txt` so only the new files remain untracked):
   {wt}/out/A.patch   - `git diff -- src build.rs codata.txt` of change A alone (relative to the unchanged tree)
